@@ -142,14 +142,41 @@ Definition counts_step_element (acc : Z * Z * Z) (id : Z) : Z * Z * Z :=
 Definition element_ids_counts (ids : list Z) : Z * Z * Z :=
   fold_left counts_step_element ids (0, 0, 0).
 
-(* Elements.ElementIDs / Elements.FeatureIDs / Objects.ObjectIDs: the id of every element, in
-   order (nil for the empty list: an empty list here) *)
+(* Elements.ElementIDs / Elements.FeatureIDs / Objects.ObjectIDs: e.ElementID() / e.FeatureID() /
+   o.ObjectID() of every item, in order (nil for the empty list: an empty list here) *)
+(* the methods of the objects themselves (Node.ElementID() = n.ID.ElementID(n.Version), ...):
+   generated from the struct-level methods, one parameter per field read (ID, Version) *)
+Definition struct_object_id (k : kind) (r v : Z) : Z :=
+  match k with
+  | KBounds => GenIds.Bounds_ObjectID 0
+  | KNode => GenIds.Node_ObjectID r v
+  | KWay => GenIds.Way_ObjectID r v
+  | KRelation => GenIds.Relation_ObjectID r v
+  | KChangeset => GenIds.Changeset_ObjectID r
+  | KNote => GenIds.Note_ObjectID r
+  | KUser => GenIds.User_ObjectID r
+  end.
+Definition struct_element_id (k : kind) (r v : Z) : Z :=
+  match k with
+  | KNode => GenIds.Node_ElementID r v
+  | KWay => GenIds.Way_ElementID r v
+  | KRelation => GenIds.Relation_ElementID r v
+  | _ => 0
+  end.
+Definition struct_feature_id (k : kind) (r : Z) : Z :=
+  match k with
+  | KNode => GenIds.Node_FeatureID r
+  | KWay => GenIds.Way_FeatureID r
+  | KRelation => GenIds.Relation_FeatureID r
+  | _ => 0
+  end.
+
 Definition elements_element_ids (l : list (kind * Z * Z)) : list Z :=
-  map (fun '(k, r, v) => element_id k r v) l.
+  map (fun '(k, r, v) => struct_element_id k r v) l.
 Definition elements_feature_ids (l : list (kind * Z * Z)) : list Z :=
-  map (fun '(k, r, v) => feature_id k r) l.
+  map (fun '(k, r, v) => struct_feature_id k r) l.
 Definition objects_object_ids (l : list (kind * Z * Z)) : list Z :=
-  map (fun '(k, r, v) => object_id k r v) l.
+  map (fun '(k, r, v) => struct_object_id k r v) l.
 
 (* The collection-level id functions: WayNodes.ElementIDs/FeatureIDs/NodeIDs,
    Members.ElementIDs/FeatureIDs, Nodes/Ways/Relations .ElementIDs/FeatureIDs/IDs and
